@@ -284,6 +284,12 @@ class SymEval:
         if isinstance(n, ast.Call):
             return self.call(n)
         if isinstance(n, ast.Subscript):
+            from .flowexpr import prefix_slice_index
+            r = prefix_slice_index(n)
+            if r is not None:
+                return self.ev(r)
+            if any(isinstance(x, ast.Slice) for x in ast.walk(n)):
+                raise NotSymbolic("slice of a sequence")
             base = dotted_name(n.value)
             if base is not None and isinstance(n.slice, ast.Constant):
                 k = f"{base}[{n.slice.value!r}]"
